@@ -93,7 +93,9 @@ def check_run(ctx, req, x, tag, stats, replay_reqs):
     for p in x["outcomes"]:
         for o in p:
             stats["outcome"][o] = stats["outcome"].get(o, 0) + 1
-            if o == "hang":
+            if o == "hang" and not S.confirm_hang(ctx, req, lambda y: any(oo == "hang" for pp in y.get("outcomes", []) for oo in pp)):
+                stats["unconfirmed_stalls"] = stats.get("unconfirmed_stalls", 0) + 1
+            elif o == "hang":
                 ctx.violation("writing outputs under a backend fault hangs", {"kind": "oracle", "oracle": "terminates", "request": req, "outcomes": x["outcomes"]},
                               signature="write-hangs-under-fault")
     for e in x["events"]:
